@@ -216,6 +216,26 @@ def _existence_guarded(ctx: Ctx, fn: FuncInfo, node: ast.AST, target: str) -> bo
 
 def rule_guarded(ctx: Ctx) -> None:  # noqa: C901
     P, cg, eff = ctx.prog, ctx.cg, ctx.effects
+    # the commit marker (run_info.json) NAMES the files that belong to the run: taking "whatever is in the folder" instead picks up
+    # the half-written temporary a killed writer left behind - the resume gate then fails to unpickle it.  Likewise "as many
+    # entries as elements" is not "every element present": leftovers count as elements
+    LISTING = ("listdir", "scandir", "iterdir", "glob", "rglob")
+    ld = P.func("pipefunc.map._run_info.RunInfo.load")
+    listed = [c for f_ in Scope(ctx, ld).funcs for c in ast.walk(f_.node) if isinstance(c, ast.Call) and (dotted(c.func).rsplit(".", 1)[-1] in LISTING or (isinstance(c.func, ast.Attribute) and c.func.attr in LISTING))]
+    ctx.add("2-guarded", ld, listed[0] if listed else ld.node, not listed, "RunInfo.load reads exactly the files that run_info.json names" if not listed else
+            f"`{norm(listed[0])[:50]}`: RunInfo.load takes the content of a directory for the recorded inputs: the leftover temporary file of a writer that was killed (`<name>.<pid>.tmp`) is loaded as an input - "
+            "the resume gate raises 'Could not load previous run info' (truncated pickle) instead of resuming", key="load-reads-recorded-files")
+    fa = P.classes.get("pipefunc.map._storage_array._file.FileArray")
+    if fa is not None:
+        for mname in ("mask_linear", "has_index", "mask"):
+            m = dict.get(fa.methods, mname)
+            if m is None:
+                continue
+            counts = [c for c in ast.walk(m.node) if isinstance(c, ast.Compare) and any(isinstance(x, ast.Call) and dotted(x.func) == "len" and x.args and any(
+                isinstance(y, ast.Call) and (dotted(y.func).rsplit(".", 1)[-1] in LISTING) for y in ast.walk(Defs(m).resolve(x.args[0]))) for x in ast.walk(c))]
+            ctx.add("3-missing", m, counts[0] if counts else m.node, not counts, f"FileArray.{mname} decides presence by file NAME" if not counts else
+                    f"`{norm(counts[0])[:60]}` takes the NUMBER of directory entries for completeness: one leftover temporary file (a writer killed between write and rename) makes the count reach `size` while an element is missing - "
+                    "the element is reported present, never computed, and reading it raises FileNotFoundError", key=f"presence-by-name {mname}")
     COVERED = {  # loads that are covered by a protocol instead of a local test: reason
         "pipefunc.map._run_info.RunInfo.load": "commit marker: run_info.json is tested by the caller and written after inputs/defaults (rule below)",
         "pipefunc.map._storage_array._file.FileArray.get_from_index": "callers only pass indices whose file the mask / has_index reported present (rule below)",
